@@ -14,33 +14,64 @@ PROP = "C20"
 REPO = ombuild.REPO
 
 # ------------------------------------------------------------------------------------------------ documented interface
-# Hand-written from the help texts / documentation of the tools: for each option (keyed by its first alias) the
-# parameters in DOCUMENTED order, the harness op that performs the corresponding library call, and the kind of output.
-# A role starting with '?' is optional.  'out:<kind>' is the output file (kind: matrix, sym, sparse).
+# For each option (keyed by its first alias) the harness op that performs the corresponding library call.  The DOCUMENTED
+# parameter order ("roles") is NOT written here: it is derived by the translator from the lines the tools' help()
+# functions print (fill_documented_roles).  A role starting with '?' is optional, 'out:<kind>' is the output file.
 ASSEMBLE = {
-    "-HeadMat":                  dict(roles=["geom", "cond", "out:sym"], op="HM"),
-    "-CorticalMat":              dict(roles=["geom", "cond", "elec", "=domain", "out:matrix"], op="CM"),
-    "-SurfSourceMat":            dict(roles=["geom", "cond", "srcmesh", "out:matrix"], op="SSM"),
-    "-DipSourceMat":             dict(roles=["geom", "cond", "dip", "out:matrix", "?=domain"], op="DSM"),
-    "-EITSourceMat":             dict(roles=["geom", "cond", "eit", "out:matrix"], op="EITSM"),
-    "-Head2EEGMat":              dict(roles=["geom", "cond", "elec", "out:sparse"], op="H2EM"),
-    "-Head2ECoGMat":             dict(roles=["geom", "cond", "ecog", "?=iface", "out:sparse"], op="H2ECOGM"),
-    "-Head2MEGMat":              dict(roles=["geom", "cond", "squids", "out:matrix"], op="H2MM"),
-    "-SurfSource2MEGMat":        dict(roles=["srcmesh", "squids", "out:matrix"], op="SS2MM"),
-    "-DipSource2MEGMat":         dict(roles=["dip", "squids", "out:matrix"], op="DS2MM"),
-    "-Head2InternalPotMat":      dict(roles=["geom", "cond", "points", "out:matrix"], op="H2IPM"),
-    "-DipSource2InternalPotMat": dict(roles=["geom", "cond", "dip", "points", "out:matrix", "?=domain"], op="DS2IPM"),
+    "-HeadMat":                  dict(op="HM"),
+    "-CorticalMat":              dict(op="CM"),
+    "-SurfSourceMat":            dict(op="SSM"),
+    "-DipSourceMat":             dict(op="DSM"),
+    "-EITSourceMat":             dict(op="EITSM"),
+    "-Head2EEGMat":              dict(op="H2EM"),
+    "-Head2ECoGMat":             dict(op="H2ECOGM"),
+    "-Head2MEGMat":              dict(op="H2MM"),
+    "-SurfSource2MEGMat":        dict(op="SS2MM"),
+    "-DipSource2MEGMat":         dict(op="DS2MM"),
+    "-Head2InternalPotMat":      dict(op="H2IPM"),
+    "-DipSource2InternalPotMat": dict(op="DS2IPM"),
 }
 GAIN = {
-    "-EEG":                  dict(roles=["hminv", "dsm", "h2em", "out:matrix"], op="EEG"),
-    "-EEGadjoint":           dict(roles=["geom", "cond", "dip", "hm", "h2em", "out:matrix"], op="EEGadjoint"),
-    "-MEG":                  dict(roles=["hminv", "dsm", "h2mm", "ds2mm", "out:matrix"], op="MEG"),
-    "-MEGadjoint":           dict(roles=["geom", "cond", "dip", "hm", "h2mm", "ds2mm", "out:matrix"], op="MEGadjoint"),
-    "-EEGMEGadjoint":        dict(roles=["geom", "cond", "dip", "hm", "h2em", "h2mm", "ds2mm", "out:matrix", "out2:matrix"], op="EEGMEGadjoint"),
-    "-InternalPotential":    dict(roles=["hminv", "dsm", "h2ipm", "ds2ipm", "out:matrix"], op="IP"),
-    "-EITInternalPotential": dict(roles=["hminv", "eitsm", "h2ipm", "out:matrix"], op="EITIP"),
+    "-EEG":                  dict(op="EEG"),
+    "-EEGadjoint":           dict(op="EEGadjoint"),
+    "-MEG":                  dict(op="MEG"),
+    "-MEGadjoint":           dict(op="MEGadjoint"),
+    "-EEGMEGadjoint":        dict(op="EEGMEGadjoint"),
+    "-InternalPotential":    dict(op="IP"),
+    "-EITInternalPotential": dict(op="EITIP"),
 }
 DOC = {"om_assemble": ASSEMBLE, "om_gain": GAIN}
+OUTKIND = {"-HeadMat": "sym", "-Head2EEGMat": "sparse", "-Head2ECoGMat": "sparse"}
+
+def roles_of(tname, b):
+    """documented parameter order of an option block, as derived by the translator from the lines the tool's help()
+    prints (role from the wording of each line); None when the help text does not mention the option"""
+    if not b.get("doc"): return None
+    roles = []; nout = 0
+    for d in b["doc"]:
+        r = d["role"]
+        if r == "opt": continue                      # the free-form optional tail of -CorticalMat (alpha/beta/gamma/file)
+        if r == "out":
+            nout += 1; rr = ("out" if nout == 1 else "out2") + ":" + OUTKIND.get(b["aliases"][0], "matrix")
+        elif r in ("domain", "iface"): rr = "=" + r
+        else: rr = r
+        if tname == "om_gain" and b["aliases"][0] == "-EITInternalPotential" and r == "dsm": rr = "eitsm"   # the source matrix of EIT
+        roles.append(("?" if d["optional"] else "") + rr)
+    return roles
+
+def fill_documented_roles(ck, tools):
+    for t in tools:
+        doc = DOC.get(t["name"])
+        if doc is None: continue
+        for b in t["blocks"]:
+            bname = b["aliases"][0]
+            roles = roles_of(t["name"], b)
+            if bname in doc and roles is not None: doc[bname]["roles"] = roles
+            elif bname in doc:
+                doc.pop(bname)
+                ck.violation("undocumented option %s %s" % (t["name"], bname), "the help text of %s does not list the parameters of %s" % (t["name"], bname),
+                             dict(kind="table", tool=t["name"], option=bname), found_input=False)
+        for k in [k for k in doc if "roles" not in doc[k]]: doc.pop(k)
 # aliases the help text of the tools documents (the translator table must accept every one of them)
 SUFFIXES = [".bin", ".txt", ".mat"]
 TOOL_PATH = {"om_assemble": "apps/om_assemble", "om_gain": "apps/om_gain", "om_minverser": "apps/om_minverser",
@@ -80,7 +111,10 @@ def parse_model(line):
     for _ in range(nd):
         kind, pos = get(), get(); t = tok(); sv = tok()
         vals.append(dict(kind=kind, pos=pos, token=t, value=sv))
-    return dict(final=["run", "exit", "crash"][fin], code=code, execs=execs, vals=vals)
+    plan = None
+    if p < len(v) and get() == 1:
+        plan = dict(inp=tok(), in_fmt=tok(), out=tok(), out_fmt=tok())
+    return dict(final=["run", "exit", "crash"][fin], code=code, execs=execs, vals=vals, plan=plan)
 
 # ------------------------------------------------------------------------------------------------ input files
 def make_generated(rng, wd, name, nlayers):
@@ -351,7 +385,7 @@ def gen_pipeline(R, rng, fsets):
                   cls="reassoc", model=fs["name"], suffix=".bin", sym="gain re-association", desc="(A*Hinv)*S vs A*(Hinv*S) on %s" % fs["name"])
 
 def gen_tools_cases(R, rng, quick, fsets):
-    tools = {t["name"]: t for t in R.tools}
+    tools = dict.fromkeys(TOOL_PATH); tools.update({t["name"]: t for t in R.tools})   # a tool the translator could not read is still run
     fs = fsets[0]; od = fs["dir"]
     sfx = lambda: rng.choice(SUFFIXES)
     if "om_forward" in tools and "gain_eeg" in fs:
@@ -363,31 +397,43 @@ def gen_tools_cases(R, rng, quick, fsets):
             R.add(tool="om_forward", args=[fs["gain_eeg"], src, out, "0"], off=0, expect="ok", outs=[(out, ref, "matrix")],
                   hcase="FWD %s %s %s 0" % (fs["gain_eeg"], src, ref), cls="positional", model=fs["name"], suffix=s,
                   sym="om_forward gain sources out 0", desc="om_forward, noise level 0 (%s)" % s)
+    if "om_forward" in tools and "gain_eeg" in fs:
+        lvl = rng.choice(["0.5", "2", "1e-3"])
+        out = os.path.join(od, "simulated_noisy.txt")
+        R.add(tool="om_forward", args=[fs["gain_eeg"], os.path.join(od, "sources.txt"), out, lvl], off=0, expect="noisy", outs=[], hcase=None, noisy=(out, os.path.join(od, "simulated.txt"), float(lvl)),
+              cls="positional", model=fs["name"], suffix=".txt", sym="om_forward gain sources out " + lvl, desc="om_forward with noise level %s (not reproducible: std::random_device)" % lvl)
     if "om_matrix_convert" in tools:
         vec = os.path.join(od, "vector.txt")
         with open(vec, "w") as fh: fh.write("\n".join(repr(round(rng.uniform(-5, 5), 4)) for _ in range(5)) + "\n")
-        srcs = [("vector", vec)] + [(k, fs[key]) for k, key in (("sym", "hm"), ("matrix", "dsm"), ("sparse", "h2em")) if key in fs]
-        for kind, inp in srcs:
-            for n, (osfx, inf, outf) in enumerate([(".txt", "", ""), (".mat", "", ""), (".bin", "", ""), (".dat", "", "ascii"), (".out", "", "binary")]):
-                if quick and n >= 3 and rng.random() < 0.5: continue
-                out = os.path.join(od, "conv_%s_%d%s" % (kind, n, osfx)); ref = os.path.join(od, "ref_conv_%s_%d%s" % (kind, n, osfx))
-                args = ["-i", inp, "-o", out]
-                if outf: args += ["-of", outf]
-                if rng.random() < 0.5: args = args[2:4] + args[:2] + args[4:]         # order of typed options is free
-                R.add(tool="om_matrix_convert", args=args, off=0, expect="ok", outs=[(out, ref, kind if osfx in (".mat",) else "bytes")],
-                      hcase="MCONV %s %s %s %s %s" % (kind, inp, ref, inf or "-", outf or "-"), cls="typed", model=fs["name"], suffix=osfx,
-                      typed={"-i": inp, "-o": out, "-of": outf}, sym="om_matrix_convert -i %s%s -o out%s%s" % (kind, os.path.splitext(inp)[1], osfx, (" -of " + outf) if outf else ""),
-                      desc="om_matrix_convert %s -> %s" % (kind, osfx))
-            # explicit input format on a file without telling suffix
-            if kind != "vector" or True:
-                anon = os.path.join(od, "anon_%s.data" % kind)
-                R.add(tool="om_matrix_convert", args=["-i", inp, "-o", anon, "-of", "binary"], off=0, expect="ok", outs=[(anon, os.path.join(od, "ref_anon_%s.data" % kind), "bytes")],
-                      hcase="MCONV %s %s %s - binary" % (kind, inp, os.path.join(od, "ref_anon_%s.data" % kind)), cls="typed", model=fs["name"], suffix=".data",
-                      typed={"-i": inp, "-o": anon, "-of": "binary"}, sym="om_matrix_convert -i %s -o anon.data -of binary" % kind, desc="om_matrix_convert %s -> anonymous binary" % kind)
-                back = os.path.join(od, "back_%s.txt" % kind)
-                R.add(tool="om_matrix_convert", args=["-if", "binary", "-i", anon, "-o", back], off=0, expect="ok", outs=[(back, os.path.join(od, "ref_back_%s.txt" % kind), "bytes")],
-                      hcase="MCONV %s %s %s binary -" % (kind, anon, os.path.join(od, "ref_back_%s.txt" % kind)), cls="typed", model=fs["name"], suffix=".txt",
-                      typed={"-i": anon, "-o": back, "-if": "binary"}, sym="om_matrix_convert -if binary -i anon.data(%s) -o back.txt" % kind, desc="om_matrix_convert anonymous binary %s -> txt with -if" % kind)
+        srcs = [("vector", vec, "ascii")] + [(k, fs[key], "binary") for k, key in (("sym", "hm"), ("matrix", "dsm"), ("sparse", "h2em")) if key in fs]
+        FMT = {".txt": "ascii", ".bin": "binary", ".mat": "matlab"}
+        n = 0
+        for kind, inp, infmt in srcs:
+            # every combination: -if absent/present x -of absent/present, telling and non-telling output suffixes
+            combos = [(ifg, ofg, osfx) for ifg in (False, True) for ofg in (None, "ascii", "binary", "matlab") for osfx in (".txt", ".bin", ".mat", ".dat")
+                      if not (ofg is None and osfx == ".dat")]
+            if quick: combos = rng.sample(combos, 9)
+            for ifg, ofg, osfx in combos:
+                n += 1
+                out = os.path.join(od, "conv%d_%s%s" % (n, kind, osfx)); ref = os.path.join(od, "ref_conv%d_%s%s" % (n, kind, osfx))
+                parts = [["-i", inp], ["-o", out]] + ([["-if", infmt]] if ifg else []) + ([["-of", ofg]] if ofg else [])
+                rng.shuffle(parts)                                  # the order of typed options is free
+                args = [x for pr in parts for x in pr]
+                want = dict(inp=inp, in_fmt=infmt if ifg else "auto", out=out, out_fmt=ofg or FMT[osfx])
+                outfmt = want["out_fmt"]
+                R.add(tool="om_matrix_convert", args=args, off=0, expect="ok", outs=[(out, ref, kind if outfmt == "matlab" else "bytes")], hcase=None, conv=(kind, ref),
+                      plan=want, cls="typed", model=fs["name"], suffix=osfx, typed={"-i": inp, "-o": out, "-if": infmt if ifg else "", "-of": ofg or ""},
+                      sym="om_matrix_convert -i %s%s -o out%s%s%s" % (kind, os.path.splitext(inp)[1], osfx, " -if " + infmt if ifg else "", (" -of " + ofg) if ofg else ""),
+                      desc="om_matrix_convert %s -> %s%s%s" % (kind, osfx, " -if" if ifg else "", (" -of " + ofg) if ofg else ""))
+        # round trip through a file whose suffix tells nothing: the input format must come from -if or from the content
+        for kind, inp, infmt in srcs[1:]:
+            anon = os.path.join(od, "anon_%s.data" % kind); back = os.path.join(od, "back_%s.txt" % kind)
+            R.add(tool="om_matrix_convert", args=["-i", inp, "-o", anon, "-of", "binary"], off=0, expect="ok", outs=[(anon, os.path.join(od, "ref_anon_%s.data" % kind), "bytes")], hcase=None,
+                  conv=(kind, os.path.join(od, "ref_anon_%s.data" % kind)), plan=dict(inp=inp, in_fmt="auto", out=anon, out_fmt="binary"), cls="typed", model=fs["name"], suffix=".data",
+                  typed={"-i": inp, "-o": anon, "-of": "binary"}, sym="om_matrix_convert -i %s -o anon.data -of binary" % kind, desc="om_matrix_convert %s -> anonymous binary" % kind)
+            R.add(tool="om_matrix_convert", args=["-if", "binary", "-i", anon, "-o", back], off=0, expect="ok", outs=[(back, os.path.join(od, "ref_back_%s.txt" % kind), "bytes")], hcase=None,
+                  conv=(kind, os.path.join(od, "ref_back_%s.txt" % kind)), plan=dict(inp=anon, in_fmt="binary", out=back, out_fmt="ascii"), cls="typed", model=fs["name"], suffix=".txt",
+                  typed={"-i": anon, "-o": back, "-if": "binary"}, sym="om_matrix_convert -if binary -i anon.data(%s) -o back.txt" % kind, desc="om_matrix_convert anonymous binary %s -> txt with -if" % kind)
     if "om_check_geom" in tools:
         for f2 in fsets:
             combos = [[], ["-m", f2["srcmesh"]], ["-d", f2["dip"]], ["-v"], ["-m", f2["srcmesh"], "-d", f2["dip"], "-v"]]
@@ -471,17 +517,25 @@ def gen_rejects(R, rng, quick, fsets):
     rej("om_mesh_concat", [], "om_mesh_concat", "no arguments")
     for t in tools:
         rej(t, [rng.choice(["-h", "--help"])], "%s -h" % t, "help", expect="help")
-    # known-finding witnesses (refuted theorems) replayed on the executable
-    if "om_assemble" in tools:
-        R.add(tool="om_assemble", args=["-HM", fs["geom"], fs["cond"], o("conflict1.bin"), "-DSM", fs["geom"], fs["cond"], fs["dip"], o("conflict2.bin")], off=0,
-              expect="witness-conflict", cls="witness", model=fs["name"], suffix="", cwd=od, wrote=o("conflict1.bin"),
-              sym="om_assemble -HM geom cond out1 -DSM geom cond dip out2", desc="two options: the first one has written its output when the second is rejected")
-    if "om_check_geom" in tools:
-        R.add(tool="om_check_geom", args=["-g", fs["geom"], "-q"], off=0, expect="witness-stray", cls="witness", model=fs["name"], suffix="", cwd=od,
-              sym="om_check_geom -g geom -q", desc="stray unknown option accepted by a typed-option tool")
-    if "om_matrix_convert" in tools and "dsm" in fs:
-        R.add(tool="om_matrix_convert", args=["-i", fs["dsm"], "-o", "-of", "ascii"], off=0, expect="witness-dashvalue", cls="witness", model=fs["name"], suffix="", cwd=od,
-              wrote=os.path.join(od, "-of"), sym="om_matrix_convert -i dsm.bin -o -of ascii", desc="value of -o missing: the next option is taken as the file name")
+    # former known findings (pinned tree), repaired: now plain rejected lines that must write nothing
+    rej("om_assemble", ["-HM", fs["geom"], fs["cond"], o("conflict1.bin"), "-DSM", fs["geom"], fs["cond"], fs["dip"], o("conflict2.bin")],
+        "om_assemble -HM geom cond out1 -DSM geom cond dip out2", "two mutually exclusive options")
+    rej("om_assemble", ["-DSM", fs["geom"], fs["cond"], fs["dip"], o("conflict3.bin"), "-HM", fs["geom"], fs["cond"], o("conflict4.bin")],
+        "om_assemble -DSM geom cond dip out1 -HM geom cond out2", "two mutually exclusive options, other order")
+    rej("om_assemble", ["-HM", fs["geom"], fs["cond"], o("twice1.bin"), "-HM", fs["geom"], fs["cond"], o("twice2.bin")],
+        "om_assemble -HM geom cond out1 -HM geom cond out2", "same option twice")
+    rej("om_assemble", ["-CM", fs["geom"], fs["cond"], fs["elec"], fs["domain"], o("cmneg.bin"), "0.1", "-0.2"],
+        "om_assemble -CM geom cond elec domain out 0.1 -0.2", "negative parameter")
+    rej("om_assemble", ["-HM", fs["geom"], fs["cond"], o("stray.bin"), "-verbose"], "om_assemble -HM geom cond out -verbose", "stray second option")
+    rej("om_gain", ["-EEG", fs.get("hminv", "x"), fs.get("dsm", "x"), fs.get("h2em", "x"), o("g1.bin"), "-MEG", fs.get("hminv", "x"), fs.get("dsm", "x"), fs.get("h2mm", "x"), fs.get("ds2mm", "x"), o("g2.bin")],
+        "om_gain -EEG hminv dsm h2em out1 -MEG hminv dsm h2mm ds2mm out2", "two mutually exclusive options")
+    rej("om_check_geom", ["-g", fs["geom"], "-q"], "om_check_geom -g geom -q", "unknown option")
+    rej("om_check_geom", ["-g", fs["geom"], "extra"], "om_check_geom -g geom extra", "stray argument")
+    rej("om_matrix_convert", ["-i", fs.get("dsm", "x"), "-o", o("fo.txt"), "-fo", "ascii"], "om_matrix_convert -i dsm.bin -o out.txt -fo ascii", "misspelt option")
+    rej("om_matrix_convert", ["-i", fs.get("dsm", "x"), "-o", "-of", "ascii"], "om_matrix_convert -i dsm.bin -o -of ascii", "value of -o missing")
+    rej("om_matrix_convert", ["-i", fs.get("dsm", "x"), "-o", o("dup.txt"), "-i", fs.get("hm", "x")], "om_matrix_convert -i a -o out -i b", "option given twice")
+    rej("om_mesh_convert", ["-i", fs["srcmesh"], "-o", o("mc.tri"), "-scale", "2"], "om_mesh_convert -i mesh -o out -scale 2", "unknown option")
+    rej("om_mesh_concat", ["-i1", fs["srcmesh"], "-i2", fs["srcmesh"], "-o", o("cc.tri"), "-i3", fs["srcmesh"]], "om_mesh_concat -i1 a -i2 b -o out -i3 c", "unknown option")
 
 def gen_probes(R, rng, quick):
     """missing-file probes: replace one input parameter by a file that does not exist; if the model says the position is
@@ -565,6 +619,10 @@ def gen_documented(R, rng, fsets):
                 c["cls"] = "documented-alias"
 
 # ------------------------------------------------------------------------------------------------ evaluation
+def via_library(c, po, kind):
+    """MATLAB (HDF5) files carry creation dates: they are compared by loading both with the library"""
+    return kind != "bytes" and (po.endswith(".mat") or (c.get("plan") or {}).get("out_fmt") == "matlab")
+
 def evaluate(ck, R, c, pred, rc, txt, before, after, hres):
     """returns list of (signature, description) problems for one case"""
     probs = []
@@ -577,9 +635,10 @@ def evaluate(ck, R, c, pred, rc, txt, before, after, hres):
     exp = c["expect"]
     if c["tool"] is not None:
         if pred is None:
-            P("model", "the model has no prediction for this tool (translator table incomplete)"); return probs
+            pred = dict(final="run" if exp in ("ok", "status", "noisy", "probe") else "exit", code=rc if exp != "ok" else 0, execs=[], vals=None, plan=c.get("plan"), absent=True)
         # ---- correspondence model <-> executable on the exit class
-        if pred["final"] == "exit":
+        if pred.get("absent"): pass
+        elif pred["final"] == "exit":
             if rc != (pred["code"] & 0xff):
                 P("exit status differs from the model", "the model of commandline.h predicts exit status %d" % pred["code"])
             if not pred["execs"] and written:
@@ -613,7 +672,7 @@ def evaluate(ck, R, c, pred, rc, txt, before, after, hres):
             P("library call fails", "the corresponding library call failed in the harness: %s" % hres)
         if rc == 0 and (hres is None or hres.startswith("0")):
             for po, pr, kind in c["outs"]:
-                if po.endswith(".mat") and kind != "bytes":
+                if via_library(c, po, kind):
                     continue                  # compared through the library afterwards (CMP)
                 ok, why = same_file(po, pr)
                 if not ok:
@@ -643,8 +702,20 @@ def evaluate(ck, R, c, pred, rc, txt, before, after, hres):
             P("missing input file ignored", "the %s file (parameter %d) does not exist but the tool succeeded: it is read from another position" % (r, p))
         if any(os.path.exists(q) for q in c["probe_outs"]):
             P("output written although an input is missing", "outputs: %s" % [os.path.basename(q) for q in c["probe_outs"] if os.path.exists(q)])
+    if c.get("plan") and pred is not None and not pred.get("absent"):
+        if pred.get("plan") != c["plan"]:
+            P("conversion plan differs from the documentation", "model (generated from the source): %s, documented: %s" % (pred.get("plan"), c["plan"]))
+    if exp == "noisy":
+        out, clean, lvl = c["noisy"]
+        if rc != 0 or not os.path.exists(out): P("documented line fails", "om_forward with a positive noise level")
+        elif os.path.exists(clean):
+            x, y = numbers(out), numbers(clean)
+            if len(x) != len(y) or not all(isinstance(u, float) for u in x): P("noisy output has another shape", "%d vs %d values" % (len(x), len(y)))
+            else:
+                d = [u - v for u, v in zip(x, y)]; rms = (sum(e * e for e in d) / max(1, len(d))) ** 0.5
+                if not (0.15 * lvl <= rms <= 4.0 * lvl): P("noise level not honoured", "rms difference to the noiseless data %.3g for level %g (%d values)" % (rms, lvl, len(d)))
     # ---- typed options: value the model extracts = value documented
-    if c.get("typed") and pred is not None:
+    if c.get("typed") and pred is not None and pred.get("vals") is not None:
         t = R.tools[R.tidx[c["tool"]]]
         for name, val in c["typed"].items():
             idx = [k for k, d in enumerate(t["decls"]) if d["name"] == name]
@@ -667,6 +738,7 @@ def main(replay=None):
     tcli = load_translator()
     tools, problems = tcli.parse_all(REPO)
     R = Runner(ck, bdir, hb, tools)
+    fill_documented_roles(ck, tools)
     rng = ck.rng; wd = ck.workdir
     fsets = [make_generated(rng, wd, "m3", 3), make_generated(rng, wd, "m0", 2)]
     h1 = make_head1(rng, wd)
@@ -697,6 +769,12 @@ def main(replay=None):
     for c in keep:
         if c["tool"] is not None and c["tool"] in R.tidx:
             preds[c["id"]] = parse_model(mo[k]); k += 1
+    # om_matrix_convert: the library call is made with the file names and formats the MODEL predicts (no suffix logic in the harness)
+    for c in keep:
+        if c.get("conv"):
+            pl = (preds.get(c["id"]) or {}).get("plan") or c["plan"]; kind, ref = c["conv"]     # documented plan when the tool could not be translated
+            if pl["inp"] and pl["out_fmt"]:
+                c["hcase"] = "MCONV %s %s %s %s %s" % (kind, pl["inp"], ref, "-" if pl["in_fmt"] == "auto" else pl["in_fmt"], pl["out_fmt"])
     # ---- executables (in order: later cases read files written by earlier ones)
     runs = {}
     for c in keep:
@@ -714,8 +792,8 @@ def main(replay=None):
     for c in keep:
         if c["expect"] == "ok" and (c["tool"] is None or runs[c["id"]][0] == 0):
             for po, pr, kind in c["outs"]:
-                if po.endswith(".mat") and kind != "bytes" and os.path.exists(po) and os.path.exists(pr):
-                    cmpc.append((c, "CMP %s %s %s" % (kind, po, pr), po))
+                if via_library(c, po, kind) and os.path.exists(po) and os.path.exists(pr):
+                    cmpc.append((c, "CMP %s %s %s matlab" % (kind, po, pr), po))
     rc2, cout, _ = core.run_harness(hb, [x[1] for x in cmpc], wd, tag="cmp") if cmpc else (0, [], "")
     ck.log("harness done at %.1fs" % (time.time() - ck.t0))
     # ---- decide
